@@ -456,6 +456,29 @@ def phaseshifter_reference(pq, doc, angles):
     return val, max(0.0, 1.0 - float(p.sum()))
 
 
+def _jax_loop_hafnian_probe(pq, doc, extra, name):
+    """Calls the JAX loop-hafnian kernel directly on the (A, b) of the JAX state for the occupation numbers whose
+    probability is not finite. Returns (reduce_on, value) of the first non-finite kernel value, else None."""
+    from vf.gen import programs as G
+    from piquasso._math.fock import get_fock_space_basis
+    from piquasso._math.jax.hafnian import loop_hafnian_with_reduction
+
+    state = build_sim(pq, doc, make_connector(pq, "jax")).execute(G.build_program(pq, doc["ins"]), shots=1).state
+    if name.startswith("fock_probabilities"):
+        basis = np.asarray(get_fock_space_basis(doc["d"], doc["config"]["cutoff"]))
+        p = np.asarray(state.fock_probabilities)
+        occs = [basis[i] for i in np.where(~np.isfinite(p))[0]]
+    else:
+        occs = [np.asarray(extra["occ"])]
+    calc = state._get_density_matrix_calculation()
+    for occ in occs:
+        reduce_on = np.concatenate([occ, occ])
+        val = complex(loop_hafnian_with_reduction(calc._A, calc._b, reduce_on))
+        if not np.isfinite(val):
+            return [int(v) for v in reduce_on], val
+    return None
+
+
 def concrete_formula(pq, doc, angles):
     """The documented closed form Tr[rho R(phi)] = 2^d exp(-mu+ (Sigma + i D)^-1 mu) / (prod(1 - e^{i phi}) sqrt(det(Sigma + i D)))
     evaluated by the harness from the NumPy state's complex displacement / covariance, with D built by repeat(2)
@@ -527,6 +550,13 @@ def compare_case(ctx, pq, case):
     compared_modes = []
     results = {"numpy": ref}
     deviating = {}
+    polar_u = None
+    if sim == "purefock" and complex_gates and any(m.startswith("tf") for m in modes):
+        # direct probe of the TensorFlow polar shim on the symplectic matrix of every complex Euler gate of the program
+        polar_u = polar_probe(pq, doc, complex_gates)
+        ctx.c["polar_probes"] += 1
+        if polar_u[0] > 1e-6:
+            ctx.c["polar_nonunitary"] += 1
     for mode in modes:
         compiled = mode in ("jax-jit", "tf-function-outer")
         eager_ledger = bool(ambiguous) and not compiled
@@ -566,7 +596,7 @@ def compare_case(ctx, pq, case):
             deviating[mode] = devs
 
     if deviating:
-        _classify(ctx, pq, case, results, deviating, ambiguous, complex_gates, size, n_ins)
+        _classify(ctx, pq, case, results, deviating, ambiguous, complex_gates, size, n_ins, polar_u)
     if compared_modes:
         pats = sorted({G.mode_pattern(i["m"]) for i in doc["ins"] if i.get("m")})
         ctx.classes.add("%s|d%d|c%s|%s|%s|%s|%s" % (sim, doc["d"], doc["config"].get("cutoff"), doc["ins"][0]["t"],
@@ -629,7 +659,7 @@ def _compare_obs(ctx, sim, mode, robs, obs, size, n_ins, bound, compiled):
     return out
 
 
-def _classify(ctx, pq, case, results, deviating, ambiguous, complex_gates, size, n_ins):
+def _classify(ctx, pq, case, results, deviating, ambiguous, complex_gates, size, n_ins, polar_u=None):
     doc, extra = case["doc"], case.get("extra", {})
     sim = doc["sim"]
     prog = [[i["t"], i.get("m")] for i in doc["ins"]]
@@ -674,7 +704,6 @@ def _classify(ctx, pq, case, results, deviating, ambiguous, complex_gates, size,
                 ctx.viol("phaseshifter-expectation-differs:%s" % m, head + "%s gives %s (both within the photon-statistics tolerance %.1e, "
                          "apart by more than rounding); program %s" % (m, v, tol_ref, prog), dict(case, failing_mode=m))
     # ---- everything else
-    polar_u = None
     for m, devs in deviating.items():
         devs = [x for x in devs if x[0] != "phaseshifter_expectation"]
         if not devs:
@@ -682,14 +711,15 @@ def _classify(ctx, pq, case, results, deviating, ambiguous, complex_gates, size,
         name, dev, tol, detail = max(devs, key=lambda x: x[1])
         mech = "%s-%s-differs:%s" % (sim, name.split("[")[0], m)
         note = ""
-        if sim == "purefock" and m.startswith("tf") and complex_gates:
-            if polar_u is None:
-                polar_u = polar_probe(pq, doc, complex_gates)
-                ctx.c["polar_probes"] += 1
+        if sim == "gaussian" and m.startswith("jax") and detail == "non-finite entries" and \
+                name.split("[")[0] in ("fock_probabilities", "particle_detection_probability"):
+            bad = _jax_loop_hafnian_probe(pq, doc, extra, name)
+            if bad is not None:
+                mech = "jax-loop-hafnian-non-finite"
+                note = " [piquasso._math.jax.hafnian.loop_hafnian_with_reduction called directly on the state's (A, b) with reduce_on=%s returns %s]" % bad
+        if sim == "purefock" and m.startswith("tf") and complex_gates and polar_u is not None:
             jax_ok = ("jax" not in results) or ("jax" in results and "error" not in results["jax"] and "jax" not in deviating)
             nonunitary = polar_u[0] > 1e-6
-            if nonunitary:
-                ctx.c["polar_nonunitary"] += 1
             ctx.c["corrected_polar_reruns"] += 1
             compiled = m == "tf-function-outer"
             led = bool(ambiguous) and not compiled
@@ -905,7 +935,7 @@ def gen_fermionic(rng, sim, d):
 SHAPES_PF = [(1, 5), (1, 7), (2, 4), (2, 5), (2, 6), (2, 7), (3, 3), (3, 4), (3, 5), (1, 3), (2, 3), (3, 6)]
 SHAPES_G = [(1, 6), (2, 4), (2, 5), (3, 3), (3, 4), (1, 4), (2, 3)]
 
-MIN_CASES = 6
+MIN_CASES = {"purefock-tf": 8, "purefock-jax": 14, "gaussian": 10, "passive": 60, "fermionic": 30}
 ENV = {"OPENBLAS_NUM_THREADS": "1", "OMP_NUM_THREADS": "1", "NUMBA_NUM_THREADS": "2", "TF_NUM_INTRAOP_THREADS": "2",
        "TF_NUM_INTEROP_THREADS": "1", "XLA_FLAGS": "--xla_cpu_multi_thread_eigen=false"}
 
@@ -965,8 +995,10 @@ def run_shard(spec):
     else:
         shapes = None
     for i in range(int(spec["count"])):
-        # the first programs of a shard are the ones that reach every deciding counter: they always run
-        if i >= MIN_CASES and (time.process_time() - c0 > float(spec["cpu"]) or time.time() - t0 > float(spec["wall"])):
+        # a minimum number of programs per family runs whatever the CPU budget says (they reach every deciding counter
+        # and keep the coverage independent of how busy the machine is); the wall-clock cap stays below the watchdog
+        over_cpu = time.process_time() - c0 > float(spec["cpu"]) and i >= MIN_CASES[fam]
+        if over_cpu or time.time() - t0 > float(spec["wall"]):
             ctx.obs.add("%s shard stopped by its time budget" % fam)
             break
         case = gen_case(rng, fam, i, shapes, quick)
